@@ -321,8 +321,8 @@ def r01_6(ctx, rr):
                 ok = any(K.entails(atom_le(x, w, True)) for w in nw)
                 reads.append((n, ok, K.show()[:6]))
         Walker(F, b, on_node=on_node).run()
-        if len(reads) < 2:
-            raise AnchorMissing("%s: expected at least 2 reads of the backend" % b.key)
+        if len(reads) < 1:
+            raise AnchorMissing("%s: expected at least one read of the backend" % b.key)
         for n, ok, known in reads:
             rr.instances += 1
             key = "%s:reads-below-num_words" % short_fn(b.key)
